@@ -47,9 +47,11 @@ MODULES = {
  'pdrain': ("Verif.Base.Sx Verif.Model.Proc Verif.Proofs.Proc Verif.Proofs.ProcTheorems Verif.Proofs.ProcDrain", 'Proofs/ProcDrain.v'),
  'gdrain': ("Verif.Base.Sx Verif.Model.Batcher Verif.Model.Proc Verif.Model.StreamFlow Verif.Model.Pipe Verif.Proofs.Batcher Verif.Proofs.Proc Verif.Proofs.StreamFlow Verif.Proofs.Pipe Verif.Proofs.PipeDrain", 'Proofs/PipeDrain.v'),
  'pipe':   ("Verif.Base.Sx Verif.Model.Batcher Verif.Model.Proc Verif.Model.StreamFlow Verif.Model.Pipe Verif.Proofs.Batcher Verif.Proofs.Proc Verif.Proofs.StreamFlow Verif.Proofs.Pipe", 'Proofs/Pipe.v'),
+ 'soff':  ("Verif.Base.Sx Verif.Model.StreamOffsets Verif.Proofs.StreamOffsets", 'Proofs/StreamOffsets.v'),
+ 'bstop': ("Verif.Base.Sx Verif.Model.Batcher Verif.Proofs.Batcher Verif.Gen.BatcherGen Verif.Proofs.BatcherDrain Verif.Proofs.BatcherStop", 'Proofs/BatcherStop.v'),
  'flow':   ("Verif.Base.Sx Verif.Model.Proc Verif.Model.StreamFlow Verif.Proofs.Proc Verif.Proofs.ProcTheorems Verif.Proofs.StreamFlow Verif.Proofs.StreamFlowTheorems", 'Proofs/StreamFlowTheorems.v'),
 }
-REQUIRES = "From Verif Require Base.Sx Model.Stream Proofs.Stream Proofs.StreamTheorems Model.Proc Proofs.Proc Proofs.ProcTheorems Model.Pool Gen.PoolGen Model.PoolGlue Proofs.Pool Proofs.PoolLm Proofs.PoolStd Proofs.PoolTheorems Model.Batcher Proofs.Batcher Gen.BatcherGen Model.StreamFlow Proofs.StreamFlow Proofs.StreamFlowTheorems Model.Charged Proofs.Charged Model.Pipe Proofs.Pipe Proofs.StreamDrain Proofs.BatcherDrain Proofs.ProcDrain Proofs.PipeDrain.\nFrom Coq Require Import List ZArith Permutation Sorted. Import ListNotations. Open Scope Z_scope.\n"
+REQUIRES = "From Verif Require Base.Sx Model.Stream Proofs.Stream Proofs.StreamTheorems Model.Proc Proofs.Proc Proofs.ProcTheorems Model.Pool Gen.PoolGen Model.PoolGlue Proofs.Pool Proofs.PoolLm Proofs.PoolStd Proofs.PoolTheorems Model.Batcher Proofs.Batcher Gen.BatcherGen Model.StreamFlow Proofs.StreamFlow Proofs.StreamFlowTheorems Model.Charged Proofs.Charged Model.Pipe Proofs.Pipe Proofs.StreamDrain Proofs.BatcherDrain Proofs.ProcDrain Proofs.PipeDrain Model.StreamOffsets Proofs.StreamOffsets Proofs.BatcherStop.\nFrom Coq Require Import List ZArith Permutation Sorted. Import ListNotations. Open Scope Z_scope.\n"
 
 def block(prefix, part, items, comment):
     imports, path = MODULES[part]
@@ -112,6 +114,12 @@ write("C02", "C02 — per-stream commits arrive in read order, once per event; e
   ("committed_prefix_of_added", "commits_in_add_order", "without a dead queue: the committed events are a prefix of the added events in add order - no event twice, none out of order"),
   ("exactly_once_at_quiescence", "exactly_once_when_idle", "idle batcher: every added event committed exactly once"),
  ], "batcher"),
+ block("c02", 'soff', [
+  ("file_input_accepts_increasing_commits", "file_input_never_panics_on_increasing_commits", "CONSUMER SIDE (Model/StreamOffsets.v = plugin/input/file/provider.go jobProvider.commit, run on the commit notifications of real traces by monitor 16): commit notifications whose offsets are strictly increasing per stream - what the theorems above give for every stream - never reach the file input's 'offset corruption' panic"),
+  ("file_input_panics_on_any_other_order", "any_commit_out_of_order_or_repeated_panics_the_file_input", "... and ONLY those: if the file input survives a sequence of notifications, the offsets of every stream were strictly increasing - one commit out of order or repeated and the collector is down"),
+  ("file_input_stores_the_last_commit", "file_input_stores_the_offset_of_the_last_commit", "the offset it stores (and restarts from) for a stream is that of the stream's last commit notification"),
+  ("file_input_offsets_nonvacuous", "file_input_offsets_nonvacuous", "two streams, interleaved increasing commits accepted and the last offsets stored; a repeated commit and a commit behind the stored offset both panic"),
+ ], "the consumer of the commit order: file input offsets"),
 ])
 # ------------------------------------------------------------------------------------------ C01
 write("C01", "C01 — commit frontier safety: a commit notification implies the event was acknowledged by an output and every earlier event of its\n   source and stream was acknowledged or deliberately dropped. Same composition as C02 (DESIGN.md §9.5): in-order take, in-order leave,\n   in-order add, commit only inside the batch's commit section, entered in formation order after the batch's own send returned.", [
@@ -198,6 +206,11 @@ write("C04", "C04 — no wedge. Safety core of liveness for every component (dea
   ("proc_timeout_only_to_holder", "timeout_reaches_the_holder", "the stream time-out is delivered to the action that holds the run"),
   ("proc_nothing_held_after_pass", "processor_not_asleep_with_work", "the processor waits for the next event of a stream only while an action holds one"),
  ], "processor"),
+ block("c04", 'bstop', [
+  ("batcher_stop_returns", "stopping_batcher_finishes_what_it_sealed", "NO WEDGE AT SHUTDOWN, batcher (Batcher.Stop closes fullBatches and waits for the workers): from EVERY reachable stopped state the workers alone (internal labels) finish every batch in flight - Stop returns -, every sealed batch went through its commit section in formation order (commitSeq = outSeq), and every event of a sealed batch is committed or was handed to the retry-error path; nothing is added meanwhile. Needs the send into fullBatches inside the critical section (atomic_push = the generated constant)"),
+  ("stopped_batcher_accepts_nothing", "stopped_batcher_accepts_nothing", "Add on a stopped batcher appends nothing (batch.go Add: `if b.shouldStop { return }`): no Add label is enabled, so the event is neither sealed nor committed - on real traces an Add label after the Stop label breaks the replay"),
+  ("batcher_stop_nonvacuous", "batcher_stop_nonvacuous", "2 workers: a batch inside OutFn and a sealed batch queued when Stop comes; Add is refused, an explicit 10-label worker schedule commits both"),
+ ], "no wedge at shutdown: batcher"),
 ])
 # ------------------------------------------------------------------------------------------ C05
 write("C05", "C05 — in-flight events never exceed capacity; none leaks or is handed out twice.", [
